@@ -14,6 +14,7 @@ variable {Sn : Pkt → Prop} {Mq : MqPkt → Prop} {E : MqPkt → Prop}
 theorem Step.setSt (g : Gw) (st : CState) : Step Sn Mq E g (g.setSt st) := Step.of_eq rfl rfl rfl
 theorem Step.setNow (g : Gw) (t : Nat) : Step Sn Mq E g (g.setNow t) := Step.of_eq rfl rfl rfl
 theorem Step.storeById (g : Gw) (m : UInt16) (id : Nat) : Step Sn Mq E g (g.storeById m id) := Step.of_eq rfl rfl rfl
+theorem Step.storeByIdB (g : Gw) (m : UInt16) (id : Nat) : Step Sn Mq E g (g.storeByIdB m id) := Step.of_eq rfl rfl rfl
 theorem Step.storeRegistered (g : Gw) (id : UInt16) (n : Bytes) : Step Sn Mq E g (g.storeRegistered id n) :=
   Step.of_eq rfl rfl rfl
 theorem Step.clearBuffer (g : Gw) : Step Sn Mq E g g.clearBuffer := fun w =>
@@ -193,6 +194,11 @@ theorem Step.handleDisconnect (S : Sites Sn Mq) (g : Gw) (d : UInt16) (hd : d = 
 
 /-! ### broker → client -/
 
+theorem lookupByIdB_mem {g : Gw} {mid : UInt16} {t : Tx} (h : g.lookupByIdB mid = some t) : t ∈ g.txs := by
+  unfold Gw.lookupByIdB at h
+  obtain ⟨id, _, hg⟩ := Option.bind_eq_some_iff.mp h
+  exact getTx_mem hg
+
 theorem lookupById_mem {g : Gw} {mid : UInt16} {t : Tx} (h : g.lookupById mid = some t) : t ∈ g.txs := by
   unfold Gw.lookupById at h
   obtain ⟨id, _, hg⟩ := Option.bind_eq_some_iff.mp h
@@ -220,7 +226,7 @@ theorem Step.startBrokerPub (g : Gw) (qos : UInt8) (msgId : UInt16) (st0 : BpSt)
     Step Sn Mq E g (g.startBrokerPub qos msgId st0 snp st first) := by
   unfold Gw.startBrokerPub
   refine Step.trans ?_ (Step.proceedSN _ _ _ _ hf)
-  refine Step.trans ?_ (Step.storeById _ _ _)
+  refine Step.trans ?_ (Step.storeByIdB _ _ _)
   exact Step.newTx g _ _ _ (fun _ => ⟨(fun p e => by cases e), (fun p e => by cases e), hs⟩)
 
 theorem brokerTopicId_tit {g : Gw} {topic : Bytes} {tid : UInt16} {tit : UInt8}
